@@ -33,27 +33,43 @@ def _match(kf, sig, case):
         return False
 
 
-def replay_case(prop, path, timeout=600):
-    """Re-execute one recorded case in a fresh process.
-    Returns (reproduced: bool|None, sig, text)."""
+def replay_cases(prop, paths, timeout=900):
+    """Re-execute recorded cases in ONE fresh process.
+    Returns {path: (reproduced: bool|None, sig)} and the process output."""
+    paths = [str(p) for p in paths]
+    if not paths:
+        return {}, ""
     env = common.worker_env()
     try:
         r = subprocess.run(
-            [common.PY, "-m", "vf.replay", prop, str(path)],
+            [common.PY, "-m", "vf.replay", prop] + paths,
             cwd=str(common.VERIF),
             env=env,
             capture_output=True,
             text=True,
             timeout=timeout,
         )
-    except subprocess.TimeoutExpired:
-        return None, None, "replay watchdog"
-    out = r.stdout.strip().splitlines()
-    for line in reversed(out):
+        text = r.stdout + r.stderr
+    except subprocess.TimeoutExpired as e:
+        text = (e.stdout or b"").decode(errors="replace") if isinstance(e.stdout, bytes) else (e.stdout or "")
+        text += "\nreplay watchdog"
+    out = {p: (None, None) for p in paths}
+    for line in text.splitlines():
         if line.startswith("REPLAY-RESULT "):
-            d = json.loads(line[len("REPLAY-RESULT ") :])
-            return d.get("reproduced"), d.get("sig"), r.stdout + r.stderr
-    return None, None, r.stdout + r.stderr
+            rest = line[len("REPLAY-RESULT ") :]
+            p, _, js = rest.partition(" ")
+            try:
+                d = json.loads(js)
+            except Exception:
+                continue
+            out[p] = (d.get("reproduced"), d.get("sig"))
+    return out, text
+
+
+def replay_case(prop, path, timeout=600):
+    out, text = replay_cases(prop, [path], timeout)
+    rep, sig = out.get(str(path), (None, None))
+    return rep, sig, text
 
 
 def write_replay(prop, viol):
@@ -83,15 +99,18 @@ def run_property(prop, tier, seed):
     unlisted = []
     kf_replayed = []
 
-    # 1. replay the committed witnesses of listed findings
+    # 1. replay the committed witnesses of listed findings (one fresh process)
+    wit = {}
     for k in open_kfs + fixed_kfs:
         w = k.get("witness")
-        if not w:
+        if w and (common.VERIF / w).exists():
+            wit[k["id"]] = common.VERIF / w
+    results, _ = replay_cases(prop, list(wit.values()))
+    for k in open_kfs + fixed_kfs:
+        wp = wit.get(k["id"])
+        if wp is None:
             continue
-        wp = common.VERIF / w
-        if not wp.exists():
-            continue
-        rep, sig, text = replay_case(prop, wp)
+        rep, sig = results.get(str(wp), (None, None))
         kf_replayed.append({"id": k["id"], "status": k["status"], "reproduced": rep})
         if k in open_kfs:
             if rep:
@@ -100,9 +119,7 @@ def run_property(prop, tier, seed):
         else:
             if rep:
                 # a repaired defect has returned
-                unlisted.append(
-                    {"sig": sig or {"regression_of": k["id"]}, "case": None, "path": wp}
-                )
+                unlisted.append({"sig": sig or {"regression_of": k["id"]}, "case": None, "path": wp})
 
     # 2. the workload
     agg = run_shards(
